@@ -303,10 +303,13 @@ package pokerface
 //@    || g.gs.Status.CurrentEvent == "RoundClosed" || g.gs.Status.CurrentEvent == "GameClosed"
 
 // WAITINV: what holds whenever the engine waits (the invariant every public operation requires and re-establishes)
+// the minimum bet is the one the blinds define (set once when the hand is initialised) - C11 / C12: "minimum bet"
+//@ pred MINIBETOK(g) = g.gs.Status.MiniBet == ite(g.gs.Meta.Blind.Dealer > g.gs.Meta.Blind.BB, g.gs.Meta.Blind.Dealer, g.gs.Meta.Blind.BB)
+
 // the round pot shown equals the wagers on the table (C01)
 //@ pred ROUNDPOT(g) = g.gs.Status.CurrentRoundPot == SUMW(g, len(g.gs.Players))
 
-//@ pred WAITINV(g) = ENGINE(g) && DECKOK(g) && TABLE(g) && WAITSET(g) && ROUNDPOT(g)
+//@ pred WAITINV(g) = ENGINE(g) && DECKOK(g) && TABLE(g) && WAITSET(g) && ROUNDPOT(g) && MINIBETOK(g)
 //@    && (g.gs.Status.CurrentEvent == "RoundStarted" ==> TURN(g) && g.gs.Status.Round != "" && !g.gs.Players[g.gs.Status.CurrentPlayer].Acted)
 //@    && (g.gs.Status.CurrentEvent != "RoundStarted" ==> ALLIDLE(g))
 //@    && (g.gs.Status.CurrentEvent == "AnteRequested" ==> g.gs.Status.Round == "" && ZEROBETS(g) && g.gs.Meta.Ante > 0)
@@ -332,7 +335,7 @@ package pokerface
 
 //@ func (*game).RequestPlayerAction(g) (err)
 //@   props C04 C05
-//@   requires ENGINE(g) && DECKOK(g) && TABLE(g) && 0 <= g.gs.Status.CurrentPlayer && OTHERSIDLE(g) && ROUNDPOT(g)
+//@   requires ENGINE(g) && DECKOK(g) && TABLE(g) && 0 <= g.gs.Status.CurrentPlayer && OTHERSIDLE(g) && ROUNDPOT(g) && MINIBETOK(g)
 //@   requires g.gs.Status.CurrentEvent == "RoundStarted" && g.gs.Status.Round != ""
 //@   modifies @CHAIN
 //@   allocs elems(string), elems(Player), settlement.Result
@@ -366,6 +369,7 @@ package pokerface
 //@   case event == GameEvent_GameClosed
 //@   requires GameEvent_Started <= event && event <= GameEvent_GameClosed
 //@   requires ENGINE(g) && ROUNDVALID(g) && ROUNDPOT(g)
+//@   requires event > GameEvent_Started ==> MINIBETOK(g)
 //@   requires event == GameEvent_Started ==> ZEROBETS(g) && g.gs.Status.Round == "" && DECKOK(g)
 //@   requires event == GameEvent_Initialized ==> ZEROBETS(g) && g.gs.Status.Round == "" && DECKOK(g)
 //@   requires event == GameEvent_Prepared ==> ZEROBETS(g) && g.gs.Status.Round == "" && DECKOK(g) && ALLIDLE(g)
@@ -419,7 +423,7 @@ package pokerface
 
 //@ func (*game).Resume(g) (err)
 //@   props C04 C05 C06
-//@   requires ENGINE(g) && DECKOK(g) && TABLE(g) && 0 <= g.gs.Status.CurrentPlayer && OTHERSIDLE(g) && ROUNDPOT(g)
+//@   requires ENGINE(g) && DECKOK(g) && TABLE(g) && 0 <= g.gs.Status.CurrentPlayer && OTHERSIDLE(g) && ROUNDPOT(g) && MINIBETOK(g)
 //@   requires g.gs.Status.CurrentEvent == "RoundStarted" && g.gs.Status.Round != ""
 //@   modifies @CHAIN
 //@   allocs elems(string), elems(Player), settlement.Result
@@ -438,7 +442,7 @@ package pokerface
 
 //@ func (*game).StartRound(g) (err)
 //@   props C04 C05
-//@   requires IDLEPRE(g) && ROUNDVALID(g) && g.gs.Status.Round != "" && DECKOK(g) && g.gs.Status.CurrentEvent == "RoundPrepared" && ROUNDPOT(g)
+//@   requires IDLEPRE(g) && ROUNDVALID(g) && g.gs.Status.Round != "" && DECKOK(g) && g.gs.Status.CurrentEvent == "RoundPrepared" && ROUNDPOT(g) && MINIBETOK(g)
 //@   modifies @CHAIN
 //@   allocs elems(string), elems(Player), settlement.Result
 //@   ensures err == nil && WAITINV(g)
